@@ -238,3 +238,19 @@ func GoRoot() (string, error) {
 	}
 	return strings.TrimSpace(string(out)), nil
 }
+
+// RecvNameOf gives "T." for a method of T or *T, "" for a function.
+func RecvNameOf(fn *types.Func) string {
+	sig, ok := fn.Type().(*types.Signature)
+	if !ok || sig.Recv() == nil {
+		return ""
+	}
+	t := sig.Recv().Type()
+	if p, ok := t.(*types.Pointer); ok {
+		t = p.Elem()
+	}
+	if n, ok := t.(*types.Named); ok {
+		return n.Obj().Name() + "."
+	}
+	return ""
+}
